@@ -52,8 +52,40 @@ static MPROT_RW_CALLS: AtomicU64 = AtomicU64::new(0);
 static MPROT_FAIL_FROM: AtomicI64 = AtomicI64::new(0);
 pub static MPROT_LEG: std::sync::atomic::AtomicBool = std::sync::atomic::AtomicBool::new(false);
 
+// second armed behaviour (C15's "one refused protection change" leg): the first mprotect request
+// made inside the t-th protection-changing transition of the history is REFUSED WITHOUT BEING
+// PERFORMED (ENOMEM: the kernel could not split the mapping); every other request, including
+// the ones the subsequent drop makes to unprotect and wipe, is carried out. The refused
+// transition must report Err and what it consumed must still be wiped and released cleanly.
+static MPROT_ONCE_TARGET: AtomicI64 = AtomicI64::new(0);
+static MPROT_OP_ORD: AtomicI64 = AtomicI64::new(0);
+static MPROT_IN_OP: std::sync::atomic::AtomicBool = std::sync::atomic::AtomicBool::new(false);
+static MPROT_OP_USED: std::sync::atomic::AtomicBool = std::sync::atomic::AtomicBool::new(false);
+pub static MPROT_ONCE_LEG: std::sync::atomic::AtomicBool = std::sync::atomic::AtomicBool::new(false);
+
+fn mprot_op_begin() {
+    MPROT_OP_ORD.fetch_add(1, Ordering::SeqCst);
+    MPROT_OP_USED.store(false, Ordering::SeqCst);
+    MPROT_IN_OP.store(true, Ordering::SeqCst);
+}
+
+fn mprot_op_end() {
+    MPROT_IN_OP.store(false, Ordering::SeqCst);
+}
+
+fn arm_mprotect_once(t: i64) {
+    MPROT_OP_ORD.store(0, Ordering::SeqCst);
+    MPROT_IN_OP.store(false, Ordering::SeqCst);
+    MPROT_ONCE_TARGET.store(t, Ordering::SeqCst);
+}
+
 #[no_mangle]
 pub unsafe extern "C" fn mprotect(addr: *mut libc::c_void, len: libc::size_t, prot: libc::c_int) -> libc::c_int {
+    let t = MPROT_ONCE_TARGET.load(Ordering::SeqCst);
+    if t > 0 && MPROT_IN_OP.load(Ordering::SeqCst) && MPROT_OP_ORD.load(Ordering::SeqCst) == t && !MPROT_OP_USED.swap(true, Ordering::SeqCst) {
+        *libc::__errno_location() = libc::ENOMEM;
+        return -1;
+    }
     let rc = libc::syscall(libc::SYS_mprotect, addr, len, prot) as libc::c_int;
     if prot == (libc::PROT_READ | libc::PROT_WRITE) {
         let n = MPROT_RW_CALLS.fetch_add(1, Ordering::SeqCst) + 1;
@@ -427,6 +459,7 @@ pub struct World<A: PmCont> {
     model: [Option<MRec>; 2],
     base_len: usize,
     fill: u8,
+    general_leaks: Vec<String>,
 }
 
 fn pattern(len: usize, p: u8) -> Vec<u8> {
@@ -435,7 +468,7 @@ fn pattern(len: usize, p: u8) -> Vec<u8> {
 
 impl<A: PmCont> World<A> {
     fn new(base_len: usize) -> Self {
-        World { slots: [None, None], model: [None, None], base_len, fill: 0xA5 }
+        World { slots: [None, None], model: [None, None], base_len, fill: 0xA5, general_leaks: vec![] }
     }
 
     fn sync_model(&mut self, s: usize, content: Option<Vec<u8>>) {
@@ -602,6 +635,10 @@ impl<A: PmCont> World<A> {
                         $e.map($wrap).map_err(|e| e.to_string())
                     };
                 }
+                let prot_change = matches!(op, Op::Ro(_) | Op::Rw(_) | Op::Na(_));
+                if prot_change {
+                    mprot_op_begin();
+                }
                 let r = guarded(AssertUnwindSafe(move || -> Result<Hd<A>, String> {
                     match (op, h) {
                         (Op::Mlock(_), Hd::Raw(a)) => tr!(a.mlock(), Hd::LRW),
@@ -632,6 +669,9 @@ impl<A: PmCont> World<A> {
                         _ => unreachable!(),
                     }
                 }));
+                if prot_change {
+                    mprot_op_end();
+                }
                 match r {
                     Err(p) => {
                         self.model[s] = None;
@@ -743,12 +783,23 @@ impl<A: PmCont> World<A> {
             Op::Resize(s, n) => {
                 let s = s as usize;
                 let Some(h) = self.slots[s].as_mut() else { return Outcome::Skipped };
+                // while the container resizes, nothing holding its current content may go back
+                // to the general allocator either (a temporary copy made on the way)
+                let secret: Vec<u8> = self.model[s].as_ref().map(|m| m.content.clone()).unwrap_or_default();
+                let armed = crate::c04::watch_arm(&secret);
                 let r = guarded(AssertUnwindSafe(|| match h {
                     Hd::Raw(a) => A::resize_raw(a, n, fill),
                     Hd::LRW(p) => A::resize_lrw(p, n, fill),
                     Hd::URW(p) => A::resize_urw(p, n, fill),
                     _ => false,
                 }));
+                if armed {
+                    let (hits, size) = crate::c04::watch_disarm();
+                    if hits > 0 {
+                        self.general_leaks.push(format!("while resizing to {} bytes, {} block(s) (last: {} bytes) holding a copy of the container's content went back to the general allocator unwiped", n, hits, size));
+                    }
+                }
+                drop(secret);
                 match r {
                     Err(p) => {
                         // a panicking resize leaves the handle as it was (API takes &mut self)
@@ -1105,7 +1156,7 @@ impl Explorer {
             self.fails.push(json!({
                 "signature": sig,
                 "what": format!("{} len {} after {:?}{}: {}", self.cname, self.base_len, ops, if k > 0 { format!(" with mlock refused from call {}", k) } else { String::new() }, detail),
-                "case": {"bin": "mcn", "container": self.cname, "base_len": self.base_len, "mode": format!("{:?}", self.mode), "mlockall": MLOCKALL.load(Ordering::SeqCst), "mprotfail": MPROT_LEG.load(Ordering::SeqCst), "ops": ops, "fail_from": k, "resize_targets": self.resize_targets},
+                "case": {"bin": "mcn", "container": self.cname, "base_len": self.base_len, "mode": format!("{:?}", self.mode), "mlockall": MLOCKALL.load(Ordering::SeqCst), "mprotfail": MPROT_LEG.load(Ordering::SeqCst), "mprotonce": MPROT_ONCE_LEG.load(Ordering::SeqCst), "rlimit0": RLIMIT0.load(Ordering::SeqCst), "ops": ops, "fail_from": k, "resize_targets": self.resize_targets},
             }));
         }
     }
@@ -1126,7 +1177,10 @@ impl Explorer {
         }
         let log = Rc::new(RefCell::new(AllocLog::default()));
         install_observer(log.clone());
-        if MPROT_LEG.load(Ordering::SeqCst) {
+        if MPROT_ONCE_LEG.load(Ordering::SeqCst) {
+            arm_mlock(0);
+            arm_mprotect_once(fail_from);
+        } else if MPROT_LEG.load(Ordering::SeqCst) {
             arm_mlock(0);
             arm_mprotect(fail_from);
         } else {
@@ -1191,13 +1245,17 @@ impl Explorer {
         w.drop_all();
         dryoc::protected::verif::set_alloc_observer(None);
         arm_mlock(0);
-        let mprot_calls = MPROT_RW_CALLS.load(Ordering::SeqCst);
+        let mprot_calls = if MPROT_ONCE_LEG.load(Ordering::SeqCst) { MPROT_OP_ORD.load(Ordering::SeqCst) as u64 } else { MPROT_RW_CALLS.load(Ordering::SeqCst) };
         arm_mprotect(0);
+        arm_mprotect_once(0);
         let l = log.borrow();
         if self.mode != Mode::Release {
             check_final(&l, self.base_lck, &mut viols);
         }
         if self.mode != Mode::Kernel {
+            for g in &w.general_leaks {
+                viols.push(Viol { class: "secret-copy-released".into(), detail: g.clone(), len: usize::MAX });
+            }
             for (_, size, nz, note) in &l.dirty {
                 if note.is_empty() {
                     viols.push(Viol { class: "unwiped-release".into(), detail: format!("a {}-byte allocation reached the system allocator with {} non-zero byte(s)", size, nz), len: usize::MAX });
@@ -1219,7 +1277,7 @@ impl Explorer {
         if lck != self.base_lck {
             self.base_lck = lck;
         }
-        let mlock_calls = if MPROT_LEG.load(Ordering::SeqCst) { mprot_calls } else { mlock_calls };
+        let mlock_calls = if MPROT_LEG.load(Ordering::SeqCst) || MPROT_ONCE_LEG.load(Ordering::SeqCst) { mprot_calls } else { mlock_calls };
         ExecResult { enabled, mlock_calls }
     }
 
@@ -1229,7 +1287,7 @@ impl Explorer {
         if !prefix.is_empty() {
             self.transitions += 1;
         }
-        if (self.mode == Mode::Fault || (self.mode == Mode::Release && MPROT_LEG.load(Ordering::SeqCst))) && !prefix.is_empty() {
+        if (self.mode == Mode::Fault || (self.mode == Mode::Release && (MPROT_LEG.load(Ordering::SeqCst) || MPROT_ONCE_LEG.load(Ordering::SeqCst)))) && !prefix.is_empty() {
             for k in 1..=(res.mlock_calls as i64 + 1) {
                 self.execute::<A>(prefix, k, true);
                 self.transitions += prefix.len() as u64;
@@ -1389,7 +1447,7 @@ fn run_ctor_family() -> Value {
             drop(l);
             for (class, d) in viols {
                 *outcomes.entry(format!("VIOLATION:{}", class)).or_insert(0) += 1;
-                fails.push(json!({"signature": format!("C19/ctor/{}/{}", class, name), "what": format!("{} with mlock refused from call {}: {}", name, k, d), "case": {"bin": "mcn", "mode": "Ctor", "ctor": name, "fail_from": k}}));
+                fails.push(json!({"signature": format!("C19/ctor/{}/{}", class, name), "what": format!("{} with mlock refused from call {}: {}", name, k, d), "case": {"bin": "mcn", "mode": "Ctor", "ctor": name, "fail_from": k, "rlimit0": RLIMIT0.load(Ordering::SeqCst)}}));
             }
             if k == 0 {
                 calls_fault_free = calls;
@@ -1473,11 +1531,25 @@ pub fn worker(args: &[String]) -> i32 {
     // args: mode container len depth probe_depth
     let mode = match args[0].as_str() {
         "kernel" => Mode::Kernel,
-        "release" | "release-mlockall" | "release-mprotfail" => Mode::Release,
+        "release" | "release-mlockall" | "release-mprotfail" | "release-mprotonce" => Mode::Release,
         _ => Mode::Fault,
     };
     if args[0] == "release-mprotfail" {
         MPROT_LEG.store(true, Ordering::SeqCst);
+    }
+    if args[0] == "release-mprotonce" {
+        MPROT_ONCE_LEG.store(true, Ordering::SeqCst);
+    }
+    if args[0] == "fault-rlimit0" {
+        // environment variant: the soft RLIMIT_MEMLOCK is 0 (`ulimit -l 0`), the usual reason a
+        // lock is refused in the first place; error paths that consult the limit run with it
+        let mut rl = libc::rlimit { rlim_cur: 0, rlim_max: 0 };
+        unsafe {
+            libc::getrlimit(libc::RLIMIT_MEMLOCK, &mut rl);
+            rl.rlim_cur = 0;
+            libc::setrlimit(libc::RLIMIT_MEMLOCK, &rl);
+        }
+        RLIMIT0.store(true, Ordering::SeqCst);
     }
     if args[0] == "release-mlockall" {
         // environment variant: the whole process runs with every current and future page locked
@@ -1516,6 +1588,7 @@ pub fn worker(args: &[String]) -> i32 {
 // parent: spawn one worker process per unit (kernel state is per process), 16 in parallel
 
 pub static MLOCKALL: std::sync::atomic::AtomicBool = std::sync::atomic::AtomicBool::new(false);
+pub static RLIMIT0: std::sync::atomic::AtomicBool = std::sync::atomic::AtomicBool::new(false);
 
 pub struct Unit {
     pub cont: String,
@@ -1665,6 +1738,18 @@ pub fn run_c15() -> i32 {
     if let Some(u) = keep2 {
         ctx.note("units", u);
     }
+    // environment variant: exactly one protection change is refused (not performed): the first
+    // mprotect request of the t-th Ro/Rw/Na transition of the history, for every t
+    let mo_units = units_for(&[1, PAGE + 1], &[64, 4097]);
+    let modepth = ctx.tier.pick(3usize, 5);
+    let res = spawn_units("release-mprotonce", &mo_units, modepth, 0);
+    let keep3 = ctx.notes.remove("units");
+    absorb_units(&mut ctx, "C15", res, &mo_units);
+    ctx.notes.remove("units");
+    if let Some(u) = keep3 {
+        ctx.note("units", u);
+    }
+    ctx.note("one_refused_protection_change_environment", json!({"depth": modepth, "units": mo_units.iter().map(|u| format!("{} len {}", u.cont, u.len)).collect::<Vec<_>>(), "fault": "the first mprotect request inside the t-th mprotect_readonly / mprotect_readwrite / mprotect_noaccess transition is refused without being performed (-1/ENOMEM), for every t; all later requests are carried out"}));
     ctx.note("mprotect_reports_failure_environment", json!({"depth": mdepth, "units": mp_units.iter().map(|u| format!("{} len {}", u.cont, u.len)).collect::<Vec<_>>(), "fault": "k-th and later mprotect(PROT_READ|PROT_WRITE) requests are performed but return -1/EACCES, for every k"}));
     ctx.note("mlockall_environment", json!({"depth": edepth, "units": env_units.iter().map(|u| format!("{} len {}", u.cont, u.len)).collect::<Vec<_>>(), "skipped": skipped}));
     ctx.note("depth", json!(depth));
@@ -1682,6 +1767,21 @@ pub fn run_c19() -> i32 {
     ctx.assume("only mlock is refused; mprotect and allocation failures are not injected");
     let res = spawn_units("fault", &units, depth, 0);
     absorb_units(&mut ctx, "C19", res, &units);
+    // environment variant: the same enumeration in a process whose soft RLIMIT_MEMLOCK is 0
+    let rl_units = {
+        let mut v = units_for(&[1, PAGE + 1], &[32, 4097]);
+        v.push(Unit { cont: "ctors".into(), len: 0 });
+        v
+    };
+    let rdepth = ctx.tier.pick(3usize, 4);
+    let res = spawn_units("fault-rlimit0", &rl_units, rdepth, 0);
+    let keep = ctx.notes.remove("units");
+    absorb_units(&mut ctx, "C19", res, &rl_units);
+    ctx.notes.remove("units");
+    if let Some(u) = keep {
+        ctx.note("units", u);
+    }
+    ctx.note("rlimit_memlock_zero_environment", json!({"depth": rdepth, "units": rl_units.iter().map(|u| format!("{} len {}", u.cont, u.len)).collect::<Vec<_>>()}));
     ctx.note("depth", json!(depth));
     ctx.finish()
 }
@@ -1689,7 +1789,10 @@ pub fn run_c19() -> i32 {
 pub fn replay(case: &Value) -> Option<String> {
     let exe = std::env::current_exe().unwrap();
     if case["mode"] == "Ctor" {
-        let out = std::process::Command::new(&exe).args(["pmworker", "fault", "ctors", "0", "0", "0"]).output().ok()?;
+        let out = std::process::Command::new(&exe).args(["pmworker", if case["rlimit0"] == true { "fault-rlimit0" } else { "fault" }, "ctors", "0", "0", "0"]).output().ok()?;
+        if !out.status.success() {
+            return Some(format!("worker died: {:?}", out.status));
+        }
         let text = String::from_utf8_lossy(&out.stdout);
         let line = text.lines().rev().find(|l| l.starts_with('{'))?;
         let v: Value = serde_json::from_str(line).ok()?;
@@ -1699,8 +1802,8 @@ pub fn replay(case: &Value) -> Option<String> {
     }
     let mode = match case["mode"].as_str().unwrap_or("Kernel") {
         "Kernel" => "kernel",
-        "Release" => if case["mlockall"] == true { "release-mlockall" } else if case["mprotfail"] == true { "release-mprotfail" } else { "release" },
-        _ => "fault",
+        "Release" => if case["mlockall"] == true { "release-mlockall" } else if case["mprotfail"] == true { "release-mprotfail" } else if case["mprotonce"] == true { "release-mprotonce" } else { "release" },
+        _ => if case["rlimit0"] == true { "fault-rlimit0" } else { "fault" },
     };
     let arg = json!({"ops": case["ops"], "fail_from": case["fail_from"]}).to_string();
     let out = std::process::Command::new(&exe)
